@@ -68,6 +68,35 @@ class PS(P):
         s.eat('id', 'else')
         b = s.ifexpr() if s.peekv() == ('id', 'if') else s.block()
         return mk_if(c, a, b)
+    def matchexpr(s):
+        """`match c { true => a, false => b }` is `if c { a } else { b }`; `match n { 0 => a, 3..=5 => b, _ => c }` is a
+        chain of decisions on equalities / ranges tried in order (the scrutinee must be pure if it is compared twice)"""
+        s.eat('id', 'match'); s.no_struct += 1; scrut = s.expr(); s.no_struct -= 1; s.eat('op', '{')
+        arms = []
+        while s.peekv() != ('op', '}'):
+            if s.peekv() in (('id', 'true'), ('id', 'false')): pats = [s.eat()[1]]
+            else: pats = s.pattern()
+            s.eat('op', '=>'); body = s.expr()
+            if s.peekv() == ('op', ','): s.eat()
+            arms.append((pats, body))
+        s.eat('op', '}')
+        if any(p[0] in ('true', 'false') for p, _ in arms):
+            if len(arms) != 2 or arms[0][0] not in (['true'], ['false']) or arms[1][0] not in (['true'], ['false'], [None]) or arms[0][0] == arms[1][0]:
+                raise TranslationError('match on a bool that is not `true => .., false => ..`')
+            first_true = arms[0][0] == ['true']
+            return mk_if(scrut, arms[0][1], arms[1][1]) if first_true else mk_if(scrut, arms[1][1], arms[0][1])
+        if not arms or arms[-1][0] != [None]: raise TranslationError('match without a final `_` arm')
+        tests = sum(len(p) for p, _ in arms[:-1])
+        if tests > 1 and impure(scrut): raise TranslationError('match with several arms on a scrutinee with effects')
+        e = arms[-1][1]
+        for pats, body in reversed(arms[:-1]):
+            if None in pats: raise TranslationError('`_` arm before the last arm')
+            for (lo, hi) in reversed(pats):
+                if lo == hi: e = ('if', ('cmp', '==', scrut, ('lit', str(lo), None)), body, e)
+                else:
+                    inner = ('if', ('cmp', '<=', scrut, ('lit', str(hi), None)), body, e)
+                    e = ('if', ('cmp', '>=', scrut, ('lit', str(lo), None)), inner, e)
+        return e
     def block(s):
         s.eat('op', '{'); r = run_block(s, {}, None); s.eat('op', '}')
         if r[1]: raise TranslationError('a block used as a value assigns to outer state')
@@ -287,7 +316,12 @@ def nfold(e):
         a, b = e[1][2], e[1][3]
         if lit_value(a) is not None and lit_value(b) is None: a, b = b, a       # move the sign onto the literal factor
         return ('arith', '*', a, nfold(('neg', b)))
-    return fold(e) if e[0] in ('arith', 'shift', 'bit', 'neg') else e
+    if e[0] == 'if' and e[1][0] == 'cmp' and e[1][1] == '!=':
+        return ('if', ('cmp', '==', e[1][2], e[1][3]), e[3], e[2])          # `!=` is the exact negation of `==` (also for NaN)
+    if e[0] == 'as' and e[1] in ('usize', 'u64', 'u32', 'u16', 'i64', 'i32', 'i16') and e[2][0] == 'as' and e[2][1] == 'u8' and not floatish(e[2][2]):
+        # an integer truncated to its low byte and widened again (`(i as u8) as usize`) is `(i & 0xFF) as usize`
+        return ('as', e[1], ('bit', '&', e[2][2], ('lit', '255', None)))
+    return fold(e) if e[0] in ('arith', 'shift', 'bit', 'neg', 'as') else e
 
 
 def subst_params(e, args):
@@ -305,8 +339,8 @@ def inline_calls(e, texts, depth=0):
     if isinstance(e, list): return [inline_calls(c, texts, depth) if isinstance(c, (tuple, list)) else c for c in e]
     if not isinstance(e, tuple): return e
     e = tuple(inline_calls(c, texts, depth) if isinstance(c, (tuple, list)) else c for c in e)
-    if e[0] in ('call', 'calln') and len(e[1]) == 1 and depth < 8:
-        name = e[1][0]; args = [e[2]] if e[0] == 'call' else list(e[2])
+    if e[0] in ('call', 'calln') and (len(e[1]) == 1 or (len(e[1]) == 2 and e[1][0] == 'Self')) and depth < 8:
+        name = e[1][-1]; args = [e[2]] if e[0] == 'call' else list(e[2])
         if any(impure(a) for a in args): return e           # an argument with an effect must stay evaluated once
         for t in texts:
             defs = re.findall(r'\bfn\s+%s\b' % re.escape(name), t)
@@ -379,6 +413,14 @@ def unify(p, a, b):
                 b1 = unify(p[2], x, b)
                 if b1 is not None:
                     b2 = unify(p[3], y, b1)
+                    if b2 is not None: return b2
+            return None
+        if p[0] == 'method' and p[1] in ('wrapping_mul', 'wrapping_add') and a[1] == p[1] and len(p[3]) == 1 and len(a[3]) == 1 \
+                and not impure(a[2]) and not impure(a[3][0]):
+            for x, y in ((a[2], a[3][0]), (a[3][0], a[2])):      # receiver and argument of a commutative operation
+                b1 = unify(p[2], x, b)
+                if b1 is not None:
+                    b2 = unify(p[3][0], y, b1)
                     if b2 is not None: return b2
             return None
         if p[0] == 'cmp' and p[1] in MIRROR and a[1] == MIRROR[p[1]]:
